@@ -71,7 +71,10 @@ def atom(draw, depth: int = 1):
     if k == 13:
         return ("bool", draw(st.sampled_from((True, False))))
     if k == 14:
-        return ("null",)
+        if draw(st.booleans()):
+            return ("null",)
+        # double negation of a non-boolean operand must not be eliminated (NOT NOT 5 is TRUE, not 5)
+        return ("cmp", "=", ("paren", ("not", ("not", ("col", draw(st.sampled_from(INT_COLS[:2])))))), ("int", draw(st.integers(0, 2))))
     # arithmetic comparison in the shape simplify_equality looks for:  col +/- lit <cmp> lit
     col = ("col", draw(st.sampled_from(INT_COLS[:2])))
     op = draw(st.sampled_from(("+", "-")))
@@ -109,6 +112,30 @@ def bool_expr(draw, depth: int, pool=None):
         return ("isnull", draw(bool_expr(depth - 1, pool)), draw(st.booleans()))
     # boolean equality between boolean operands
     return ("cmp", draw(st.sampled_from(("=", "<>"))), ("paren", draw(bool_expr(depth - 1, pool))), ("paren", draw(bool_expr(depth - 1, pool))))
+
+
+@st.composite
+def cmp_cluster(draw):
+    """AND/OR of 2-3 comparisons of ONE column against literals within a 3-value window, optionally negated or with
+    swapped sides: covers every (op1, op2, literal order) cell of the comparison-pair simplification table."""
+    col = ("col", draw(st.sampled_from(INT_COLS[:2])))
+    k = draw(st.integers(-1, 6))
+    n = draw(st.integers(2, 3))
+    parts = []
+    for _ in range(n):
+        lit = ("int", k + draw(st.integers(-1, 1)))
+        op = draw(st.sampled_from(CMP))
+        a = ("cmp", op, lit, col) if draw(st.integers(0, 5)) == 0 else ("cmp", op, col, lit)
+        if draw(st.integers(0, 5)) == 0:
+            a = ("not", a)
+        parts.append(a)
+    e = (draw(st.sampled_from(("and", "or"))), parts)
+    j = draw(st.integers(0, 5))
+    if j == 0:
+        e = ("not", e)
+    elif j == 1:
+        e = (draw(st.sampled_from(("and", "or"))), [e, draw(atom(1))])
+    return e
 
 
 @st.composite
